@@ -99,6 +99,34 @@ class DebSpec(FnSpec):
             ex.oblige(f"{where}[signalling: every event handed in notifies (restarts the quiet interval)]", self.st(ex)["handled"].n == self.sec_start["handled"].n, kind="signalling")
         ex.held.remove(COND)
 
+    # ---- instants (ghost): time never runs backwards; every clock reading, wait entry and wait return is an instant
+    def _tick(self, ex):
+        t = ex.fresh_term(z3.RealSort(), "instant")
+        if "tnow" in ex.ghost:
+            ex.assume(t >= ex.ghost["tnow"])
+        ex.ghost["tnow"] = t
+        return t
+
+    def _tret(self, ex):
+        """instant of the previous wake-up (return of the last wait); unknown but not in the future when none was seen yet"""
+        if "tret" not in ex.ghost:
+            t = ex.fresh_term(z3.RealSort(), "previous_wakeup")
+            if "tnow" in ex.ghost:
+                ex.assume(t <= ex.ghost["tnow"])
+            ex.ghost["tret"] = t
+        return ex.ghost["tret"]
+
+    def havoc_time(self, ex):
+        """loop-carried instants: later than before, the last wake-up not in the future"""
+        old_now, old_ret = ex.ghost.get("tnow"), ex.ghost.get("tret")
+        now, ret = ex.fresh_term(z3.RealSort(), "instant"), ex.fresh_term(z3.RealSort(), "previous_wakeup")
+        ex.assume(ret <= now)
+        if old_now is not None:
+            ex.assume(now >= old_now)
+        if old_ret is not None:
+            ex.assume(ret >= old_ret)
+        ex.ghost["tnow"], ex.ghost["tret"] = now, ret
+
     def on_with(self, ex, cv, node, entering):
         if isinstance(cv, VOpaque) and cv.kind == "cond":
             (self.acquire(ex) if entering else self.release(ex, "with-exit"))
@@ -123,6 +151,7 @@ class DebSpec(FnSpec):
                 # entered when P is false in this very lock hold (otherwise a notify that came first is lost)
                 s = self.st(ex)
                 ex.oblige("wait-predicate[untimed wait only while nothing is pending and not stopped]", z3.And(s["events"].n == 0, z3.Not(s["stopped"])), kind="signalling")
+            te = self._tick(ex)     # the instant this wait begins
             for nm, f in self.inv(self.st(ex)):
                 ex.oblige(f"wait-entry[I:{nm}]", f, kind="lock-invariant")
             before = self.st(ex)
@@ -131,12 +160,21 @@ class DebSpec(FnSpec):
             self.notified = False
             if not timed:
                 self.last_wait = ("untimed", None)
+                ex.ghost["tret"] = self._tick(ex)
                 return True
             ret = ex.fresh_term(z3.BoolSort(), "notified")
             # guarantee of every other section (proved above for handle_event/stop): handing in an event notifies - so a
             # timed wait that returns False (timeout) saw no event arrive during the whole interval
             ex.assume(z3.Implies(z3.Not(ret), self.sec_start["handled"].n == before["handled"].n))
             self.last_wait = ("timed", ret)
+            prev = self._tret(ex)
+            tr = self._tick(ex)     # the instant this wait returns: after the whole timeout if it ran out ...
+            tmo = (a[0] if a else k["timeout"])
+            try:
+                ex.assume(z3.Implies(z3.Not(ret), tr >= te + TReal.unwrap(tmo)))
+            except Exception:  # noqa: BLE001  (a timeout the executor has no number for: nothing is known about its length)
+                pass
+            ex.ghost["tret"] = z3.If(ret, tr, prev)     # ... and a wake-up (an event, or stop) only if it was notified
             return VBool(ret)
 
         def ev_set(ex, recv, a, k, n):
@@ -147,7 +185,9 @@ class DebSpec(FnSpec):
         def ev_is_set(ex, recv, a, k, n):
             ex.oblige("stop flag read with the lock held", COND in ex.held, kind="lock")
             return VBool(self.g["stopped"])
-        return {"cond.notify": notify, "cond.wait": wait, "event.set": ev_set, "event.is_set": ev_is_set}
+        def clock(ex, a, k, n):
+            return VReal(self._tick(ex))
+        return {"cond.notify": notify, "cond.wait": wait, "event.set": ev_set, "event.is_set": ev_is_set, "time.monotonic": clock, "time.time": clock, "time.perf_counter": clock}
 
     def h_callback(self, ex, args, kw, node):
         W = self.W
@@ -163,9 +203,11 @@ class DebSpec(FnSpec):
             ex.oblige("callback[batch = every event handed in since the last batch, in arrival order, none twice]",
                       z3.And(batch.n == h.n - D, batch.n > 0, z3.ForAll([j], z3.Implies(z3.And(0 <= j, j < batch.n), batch.arr[j] == h.arr[D + j]))))
             ex.oblige("callback[pending list already reset: nothing is delivered twice]", s["events"].n == 0)
-            lw = getattr(self, "last_wait", None)
-            ex.oblige("callback[quiet interval: with a debounce interval the batch is delivered straight after a timed wait that ran out with no event arriving]",
-                      z3.Implies(self.interval != 0, z3.And(z3.BoolVal(lw is not None and lw[0] == "timed"), z3.Not(lw[1]) if lw is not None and lw[0] == "timed" else z3.BoolVal(False))))
+            # "delivered once no further event has arrived for the debounce interval", over instants: events are handed in only
+            # while this thread waits (it holds the lock otherwise), an event wakes the wait it arrives in - so at delivery at
+            # least one whole interval has passed since the last wake-up.  (How the waiting is done is not prescribed.)
+            ex.oblige("callback[quiet interval: with a debounce interval the batch is delivered no earlier than one whole interval after the last wake-up by an event]",
+                      z3.Implies(self.interval != 0, ex.ghost["tnow"] >= self._tret(ex) + self.interval) if "tnow" in ex.ghost else z3.BoolVal(self.interval is None))
             self.g["D"] = h.n
         self.callbacks.append(batch)
         return None
@@ -251,6 +293,7 @@ class Run(DebSpec):
     def havoc_loop(self, ex):
         # loop-carried shared state: anything the lock invariant and this thread's own progress allow
         self.fresh_shared(ex)
+        self.havoc_time(ex)
         self.g["D"] = ex.fresh_term(z3.IntSort(), "delivered")
         self.sec_start = self.st(ex)
         self.notified = True  # signalling obligations are per section; the sections inside the loop are checked on their own paths
